@@ -690,3 +690,88 @@ Proof.
         by (rewrite !len_app; reflexivity).
       apply scanF_stop_zero.
 Qed.
+
+(* ---------------- zeroStaleTail ---------------- *)
+Lemma apply_wactions_app f a b : apply_wactions f (a ++ b) = apply_wactions (apply_wactions f a) b.
+Proof. unfold apply_wactions. apply fold_left_app. Qed.
+
+Lemma all_zero_eq_zeros c : all_zero c = true -> c = zeros (length c).
+Proof. apply all_zero_spec. Qed.
+
+Lemma scrub_chunks_apply fuel : forall a a' x,
+  length a' = length a -> len x <= N.of_nat fuel * min_buf_size ->
+  apply_wactions (a ++ x) (scrub_chunks fuel (a' ++ x) (len a')) = a ++ zeros (length x).
+Proof.
+  induction fuel as [|fuel IH]; intros a a' x Hl Hx.
+  - destruct x; [|rewrite len_cons in Hx; lia]. reflexivity.
+  - cbn [scrub_chunks]. rewrite read_at_app.
+    remember (N.to_nat min_buf_size) as M eqn:EM.
+    assert (HM : N.of_nat M = min_buf_size /\ (0 < M)%nat) by (unfold min_buf_size in *; lia).
+    clear EM. destruct HM as [HM HM0]. set (c := firstn M x).
+    assert (Hxx : x = [] \/ x <> []) by (destruct x; [left|right]; congruence).
+    destruct Hxx as [Hx0|Hxn].
+    { subst x c. rewrite firstn_nil. reflexivity. }
+    assert (Hc : c <> []).
+    { intros Ec. apply length_zero_iff_nil in Ec. unfold c in Ec. rewrite firstn_length in Ec.
+      assert (length x <> 0%nat) by (rewrite length_zero_iff_nil; exact Hxn). lia. }
+    assert (Hm : forall (A : Type) (u v : A), match c with [] => u | _ :: _ => v end = v)
+      by (intros; destruct c; congruence).
+    rewrite Hm. rewrite apply_wactions_app.
+    assert (Exc : x = c ++ skipn (length c) x).
+    { unfold c. rewrite firstn_length. destruct (Nat.le_ge_cases M (length x)) as [H|H].
+      - rewrite Nat.min_l by exact H. symmetry. apply firstn_skipn.
+      - rewrite Nat.min_r by exact H. rewrite firstn_all2, skipn_all, app_nil_r by lia. reflexivity. }
+    assert (E1 : apply_wactions (a ++ x) (if all_zero c then [] else [WWrite (len a') (zeros (length c))])
+                 = (a ++ zeros (length c)) ++ skipn (length c) x).
+    { destruct (all_zero c) eqn:Ez.
+      - cbn. rewrite <- app_assoc. f_equal. rewrite Exc at 1. f_equal. apply all_zero_eq_zeros. exact Ez.
+      - unfold apply_wactions. cbn [fold_left apply_waction]. rewrite to_nat_len, Hl, overwrite_app.
+        rewrite zeros_length, <- app_assoc. reflexivity. }
+    rewrite E1.
+    replace (a' ++ x) with ((a' ++ c) ++ skipn (length c) x) by (rewrite <- app_assoc, <- Exc; reflexivity).
+    replace (len a' + len c) with (len (a' ++ c)) by (rewrite len_app; reflexivity).
+    rewrite IH.
+    + rewrite <- app_assoc. f_equal. rewrite <- zeros_app. f_equal.
+      rewrite skipn_length. unfold c. rewrite firstn_length. lia.
+    + rewrite !app_length, zeros_length. lia.
+    + unfold len. rewrite skipn_length. unfold c. rewrite firstn_length. unfold len in Hx. lia.
+Qed.
+
+(* after recovery everything behind the recovered write offset is zero *)
+Theorem recover_leaves_zero_tail a x :
+  apply_wactions (a ++ x) (scrub_actions (a ++ x) (len a)) = a ++ zeros (length x).
+Proof.
+  unfold scrub_actions.
+  set (ws := scrub_chunks (S (N.to_nat (len (a ++ x) / min_buf_size))) (a ++ x) (len a)).
+  assert (H : apply_wactions (a ++ x) ws = a ++ zeros (length x)).
+  { unfold ws. apply scrub_chunks_apply; [reflexivity|].
+    rewrite len_app. unfold min_buf_size. lia. }
+  destruct ws as [|w0 wr] eqn:E; [exact H|].
+  rewrite apply_wactions_app, H. reflexivity.
+Qed.
+
+(* one crash / recover round on the byte level *)
+Theorem seg_recover_round info bs b T k :
+  hdr_wf info -> chain_wf info c0 (bs ++ [b]) ->
+  let s := cstate info bs in
+  let new := batch_write info s b in
+  torn new T -> no_torn_collision new T ->
+  let f := c_img s ++ T ++ zeros k in
+  let s' := if beq_bytes T new then cstep info s b else s in
+  exists acts, recover_tail info f = Some (wst info s', acts) /\
+               apply_wactions f acts = c_img s' ++ zeros (length f - length (c_img s')).
+Proof.
+  intros Hhw Hwf s new HT Hnc f s'.
+  pose proof (seg_recover_torn info bs b T k Hhw Hwf HT Hnc) as Hr. fold s new f in Hr.
+  unfold recover_tail. rewrite Hr.
+  replace (if beq_bytes T new then wst info (cstep info s b) else wst info s) with (wst info s')
+    by (unfold s'; destruct (beq_bytes T new); reflexivity).
+  eexists. split; [reflexivity|].
+  change (w_off (wst info s')) with (len (c_img s')).
+  assert (Ef : exists x, f = c_img s' ++ x).
+  { unfold s', f. destruct (beq_bytes T new) eqn:Eb.
+    - apply beq_bytes_eq in Eb. subst T. exists (zeros k). cbn [cstep c_img]. rewrite <- app_assoc. reflexivity.
+    - eexists. reflexivity. }
+  destruct Ef as [x Ef]. rewrite Ef. rewrite recover_leaves_zero_tail.
+  rewrite app_length. f_equal. f_equal. lia.
+Qed.
